@@ -35,13 +35,19 @@ func wrap(w string, l core.Limit, r *rand.Rand) (core.Limit, string) {
 		}
 		return wl
 	}
+	// the logger argument is optional everywhere in the package (nil = no logging)
+	var lg limit.Logger = limit.NoopLimitLogger{}
+	if (w == "traced" || w == "traced+windowed") && r.IntN(4) == 0 {
+		lg = nil
+		rt.Count("traced_wrappers_built_without_a_logger", 1)
+	}
 	switch w {
 	case "windowed":
 		return mkWin(l), cfg
 	case "traced":
-		return limit.NewTracedLimit(l, limit.NoopLimitLogger{}), cfg
+		return limit.NewTracedLimit(l, lg), cfg + " logger=" + fmt.Sprint(lg != nil)
 	case "traced+windowed":
-		return limit.NewTracedLimit(mkWin(l), limit.NoopLimitLogger{}), cfg
+		return limit.NewTracedLimit(mkWin(l), lg), cfg + " logger=" + fmt.Sprint(lg != nil)
 	}
 	return l, cfg
 }
